@@ -6,7 +6,7 @@ elements and probe unbounded symbolic ints, sortedness assumed) and CrossHair
 the lean engine against the reference engine).
 """
 from .. import lpe
-from ..lpe import assume, choose, require, show, sym_int
+from ..lpe import assume, choose, require, show, sym_dyadic, sym_int
 
 PROP = "C18"
 FUNCTIONS_ENCODED = ["tinyflux.utils.find_eq", "find_lt", "find_le", "find_gt", "find_ge", "bisect.bisect_left/right (C, reached through rich comparisons of the proxies)"]
@@ -15,6 +15,9 @@ ASSUMPTIONS = [
     "lists are sorted ascending (the helpers' documented precondition); duplicates allowed",
     "bounds: list length <= 7 (quick) / <= 9 (thorough); element and probe domain: all integers (lpe and CrossHair), "
     "all non-NaN reals as modelled by CrossHair for List[float] (NaN excluded: a list containing NaN is not sorted)",
+    "float family (lpe): elements and probe are k/2**40 with |k| < 2**53 (exact doubles), list length <= 4 (quick) / <= 6 (thorough); "
+    "round(x, nd) inside a helper is modelled as the nearest multiple of 10**-nd over the reals, +/- with real arithmetic; candidates are "
+    "replayed on concrete doubles (a non-reproducing one is inconclusive)",
     "longer lists are outside the claim",
 ]
 BOUNDS = {"quick": {"len": 7}, "thorough": {"len": 9}}
@@ -60,7 +63,33 @@ def h_find(params):
         lpe.fail("reachability twin")
 
 
-HARNESS = {"h_find": h_find}
+def h_find_float(params):
+    """Float lists and probes: every element is k / 2**40 with |k| < 2**53 (exact doubles, spacing
+    about 9e-13, magnitudes up to 8192), so that helpers which round, truncate or compare with a
+    tolerance are distinguished from exact comparison."""
+    from tinyflux import utils
+
+    name = params["fn"]
+    n = params["n"]
+    l = [sym_dyadic(f"l{i}") for i in range(n)]
+    for i in range(n - 1):
+        assume(l[i] <= l[i + 1])
+    x = sym_dyadic("x")
+    if params.get("member") is not None and n:
+        assume(x == l[params["member"] % n])
+    try:
+        r = getattr(utils, name)(list(l), x)
+    except lpe.EngineSignal:
+        raise
+    except Exception as e:
+        lpe.fail(f"{name} raised {type(e).__name__}: {e}")
+    ok, what = spec_ok(name, l, x, r)
+    require(ok, lambda: f"{name}({show(l)}, {show(x)}) returned {r!r}; documented: {what}")
+    if params.get("twin"):
+        lpe.fail("reachability twin")
+
+
+HARNESS = {"h_find": h_find, "h_find_float": h_find_float}
 
 
 def obligations(tier):
@@ -72,6 +101,10 @@ def obligations(tier):
         obs.append({"id": f"crosshair-int/{fn}", "engine": "ch", "harness": f"h_{fn}_int", "params": {"maxlen": min(top, 7)}, "budget_s": 100 if tier == "quick" else 600})
         if tier == "thorough":
             obs.append({"id": f"crosshair-float/{fn}", "engine": "ch", "harness": f"h_{fn}_float", "params": {"maxlen": 4}, "budget_s": 600})
+    for fn in FNS:
+        for n in range(0, (4 if tier == "quick" else 6) + 1):
+            obs.append({"id": f"lpe-float/{fn}/len{n}", "harness": "h_find_float", "params": {"fn": fn, "n": n}, "budget_s": 120})
+    obs.append({"id": "twin/lpe-float", "harness": "h_find_float", "params": {"fn": "find_eq", "n": 2, "twin": True}, "budget_s": 30})
     obs.append({"id": "twin/lpe", "harness": "h_find", "params": {"fn": "find_le", "n": 3, "twin": True}, "budget_s": 30})
     obs.append({"id": "twin/crosshair", "engine": "ch", "harness": "h_twin", "params": {"maxlen": 3, "twin": True}, "budget_s": 30})
     return obs
